@@ -687,6 +687,10 @@ theorem inv_close (s : State) (hi : Inv s) : Inv (stepClose s).1 := by
   · rw [if_pos h]; exact hi
   · rw [if_neg h]; exact inv_pushLk s [] true hi (Or.inr rfl)
 
+theorem inv_relock (s : State) (hi : Inv s) : Inv (stepRelock s).1 := by
+  obtain ⟨b1, b2, b3, b4, b5, b6, b7, c, hc, hnd⟩ := hi
+  exact ⟨b1, b2, b3, b4, b5, b6, fun k x hx hxu => (b7 k x hx hxu).congr rfl rfl rfl rfl rfl, c, hc, hnd⟩
+
 theorem inv_step (s : State) (op : Op) (hi : Inv s) : Inv (step s op).1 := by
   cases op with
   | subRecent sid m => exact inv_subRecent s sid m hi
@@ -699,6 +703,7 @@ theorem inv_step (s : State) (op : Op) (hi : Inv s) : Inv (step s op).1 := by
   | close => exact inv_close s hi
   | kick sid => exact inv_kick s sid hi
   | leave h => exact inv_leave s h hi
+  | relock => exact inv_relock s hi
 
 theorem inv_run (s : State) (ops : List Op) (hi : Inv s) : Inv (run s ops) := by
   induction ops generalizing s with
